@@ -2502,6 +2502,15 @@ def not_equals(lhs, rhs, ctx):
     )
 
 
+def nth_fibonacci(lhs, ctx):
+    """Element ∆f
+    (num) -> nth fibonacci number (0-indexed)
+    """
+    if vy_type(lhs, simple=True) is list:
+        return vectorise(nth_fibonacci, lhs, ctx=ctx)
+    return sympy.fibonacci(lhs + 1)
+
+
 def nth_cardinal(lhs, ctx):
     """Element ∆ċ
     Given a number, return that number as a cardinal - minus one, zero,
@@ -4913,7 +4922,7 @@ elements: dict[str, tuple[str, int]] = {
     "∆ė": process_element(nth_e, 1),
     "∆I": process_element("pi_digits(lhs)", 1),
     "∆Ė": process_element(e_digits, 1),
-    "∆f": process_element("sympy.fibonacci(lhs + 1)", 1),
+    "∆f": process_element(nth_fibonacci, 1),
     "∆±": process_element(copy_sign, 2),
     "∆K": process_element(divisor_sum, 1),
     "∆e": process_element(expe, 1),
